@@ -155,18 +155,18 @@ theorem insSort_good {p : Str} {strs : List Str} (h : RangeOk p strs) : SortedLc
   refine ⟨h1, ?_, ?_, ?_⟩
   · exact List.Pairwise.imp (fun {a b} hab => (strLe_iff_le a b).2 hab) h2
   · simp only [insSort]
-    rw [h3, List.length_append, C03.adjLcps_length, List.length_map, List.length_take, List.length_replicate]
+    rw [List.length_map, h3, List.length_append, C03.adjLcps_length, List.length_map, List.length_take, List.length_replicate]
     omega
   · intro i h0 hi
     simp only [insSort] at hi ⊢
-    rw [h3]
+    rw [List.getElem?_map, h3]
     have ht : (List.take 1 (List.replicate strs.length 0)).length = 1 := by
       rw [List.length_take, List.length_replicate]; omega
     rw [List.getElem?_append_right (by omega), ht]
     have := adjLcps_get ((C03.insertionSort (fun s : Str => s) true p.length strs
       (List.replicate strs.length 0)).1.map (fun s => s)) (i - 1) (by simpa using (by omega))
     rw [this]
-    simp only [List.map_id', lcp_eq_c03]
+    simp only [List.map_id', lcp_eq_c03, Option.map_some]
     have : i - 1 + 1 = i := by omega
     rw [this]
 
